@@ -440,6 +440,7 @@ def run(ctx):
         else:
             dec_agree += 1
     # ---------------- the plugin path: Encoder.Encode(stmt) -> ReadLinterRequest[T]
+    import re as _re
     pimpl = [os.path.join(V.BUILD, "implrun"), "codecplug"]
     readers = (V.run_batch(pimpl, ["readers"], hang_s=10)[0] or "").split()
     union = lint_statement_types()
@@ -452,7 +453,7 @@ def run(ctx):
     fixed_src = [(m, s_, lab) for (m, s_, lab) in sources if lab.startswith(("kind-", "corpus/")) and len(s_) < 20000]
     other_src = [(m, s_, lab) for (m, s_, lab) in sources if not lab.startswith(("kind-", "corpus/", "leaf", "float-", "int-", "block-", "sub-4k", "longleaf", "deep-")) and len(s_) < 20000]
     psources = fixed_src + rng.sample(other_src, min(len(other_src), n_psrc))
-    prep = V.run_batch(pimpl, ["src1 %s %s %d" % (m, s_.hex(), per_src) for m, s_, _ in psources], hang_s=20)
+    prep = par_batch(pimpl, ["src1 %s %s %d" % (m, s_.hex() or "-", per_src) for m, s_, _ in psources], 4, hang_s=20)
     singles = {}          # ast -> (enc hex | None, impl plug reply, label, mode, source)
     stmt_nodes = 0
     for (m, s_, lab), rep in zip(psources, prep):
@@ -463,6 +464,9 @@ def run(ctx):
         if rep.startswith("parseerr"):
             continue
         items = rep.split(" || ")
+        if not _re.match(r"n \d+$", items[0]):
+            ctx.violation("unreadable reply of the plugin-path harness (%s): %s" % (lab, rep[:200]), {"mode": m, "source_hex": s_.hex()[:4000], "reply": rep[:500]})
+            continue
         stmt_nodes += int(items[0].split()[1])
         for it in items[1:]:
             f = it.split(" ; ")
